@@ -24,5 +24,5 @@ else
 fi
 cd extract
 coqc -Q ../theories CB Extract.v > /dev/null
-ocamlfind ocamlopt -O3 -w -a model.mli model.ml driver.ml -o driver 2>/dev/null || ocamlfind ocamlopt -w -a model.mli model.ml driver.ml -o driver
+ocamlfind ocamlopt -package str -linkpkg -O3 -w -a model.mli model.ml driver.ml -o driver 2>/dev/null || ocamlfind ocamlopt -package str -linkpkg -w -a model.mli model.ml driver.ml -o driver
 echo "setup done"
